@@ -613,12 +613,32 @@ class Body:
         bsw = {}
         for bi in self.reachable():
             si = self.switch_info(bi)
-            if si and si['kind'] == 'bool' and si['local'] in tracked:
-                bsw[bi] = (si['local'], si['true_succ'], si['false_succ'])
+            if si and si['kind'] == 'bool':
+                l = si['local']
+                hops = 0
+                while l not in tracked and hops < 4:
+                    # `let allowed = matches!(..); if allowed {..}`: alias of a materialised condition
+                    sd = self.single_def(l)
+                    if sd and sd[1] == 'a' and sd[2]['rv'][0] == 'use' and op_local(sd[2]['rv'][1]) is not None \
+                            and not op_place(sd[2]['rv'][1])[1]:
+                        l = op_local(sd[2]['rv'][1])
+                        hops += 1
+                    else:
+                        break
+                if l in tracked:
+                    bsw[bi] = (l, si['true_succ'], si['false_succ'])
         out = {}
+        # gen: `scrutinee = Aggregate(enum::V)` (whole-place assignment) defines the variant
+        gens = defaultdict(dict)   # key -> {block: variant (last such statement in block)}
+        for bi in self.reachable():
+            for s in self.stmts(bi):
+                if s['k'] == 'a' and s['rv'][0] == 'agg' and s['rv'][1][0] == 'adt' and norm(s['rv'][1][1]) == enum:
+                    gens[place_key(self.canon(s['p']))][bi] = s['rv'][1][2]
+                    gens[place_key(s['p'])][bi] = s['rv'][1][2]
         for key, ec in cons.items():
             init = (frozenset(allv), frozenset())
             state = {0: {init}}
+            gen_k = gens.get(key, {})
             wl = deque([0])
             inq = {0}
             while wl:
@@ -634,6 +654,8 @@ class Body:
                             e[l] = val
                         ncur.add((vs, frozenset(e.items())))
                     cur = ncur
+                if b in gen_k:
+                    cur = {(frozenset([gen_k[b]]), env) for vs, env in cur}
                 for sb in self.succ[b]:
                     c = ec.get((b, sb))
                     nxt = set()
